@@ -72,6 +72,13 @@ func (n *c07Names) method(op c07Op) int {
 	return slices.Index(n.Methods, name)
 }
 
+// c07Mode: writer preference of sync.RWMutex (a pending Lock blocks RLock); fine: assignments to guarded fields and
+// method calls on tree objects are scheduling points too (not only operation starts and lock operations)
+type c07Mode struct {
+	WP   bool `json:"writer_preference,omitempty"`
+	Fine bool `json:"fine_grained,omitempty"`
+}
+
 type c07SchedResult struct {
 	Hist     []c07Rec
 	Trace    []sched.Event
@@ -84,7 +91,7 @@ type c07SchedResult struct {
 }
 
 // c07SchedRun: one execution of the plan under the given chooser
-func c07SchedRun(p c07Plan, nm *c07Names, wp bool, choose func(c *sched.Controller, step int, enabled []int) int) *c07SchedResult {
+func c07SchedRun(p c07Plan, nm *c07Names, mode c07Mode, choose func(c *sched.Controller, step int, enabled []int) int) *c07SchedResult {
 	sys := c07New(p.Default)
 
 	for _, op := range p.Setup {
@@ -92,10 +99,14 @@ func c07SchedRun(p c07Plan, nm *c07Names, wp bool, choose func(c *sched.Controll
 	}
 
 	c := sched.New()
-	c.WriterPreference = wp
+	c.WriterPreference, c.Fine = mode.WP, mode.Fine
 	rv := reflect.ValueOf(sys.repo).Elem()
 
 	for id, name := range nm.Locks {
+		if strings.HasPrefix(name, "atomic(") {
+			continue // pseudo lock of an atomic pointer field: logged by the probes, never scheduled
+		}
+
 		f := rv.FieldByName(name)
 		if !f.IsValid() {
 			panic("c07: no mutex field " + name)
@@ -179,12 +190,16 @@ func c07SchedRun(p c07Plan, nm *c07Names, wp bool, choose func(c *sched.Controll
 // c07Summary: what one transition (a thread running from one scheduling point to the next) did
 type c07Summary struct {
 	thread     int
-	lockKind   string // lock unlock rlock runlock, or "" (invocation)
-	lock       int
+	locks      []c07LockOp // the lock operation the transition starts with (none: invocation) + atomic pseudo-lock operations
 	begin, end bool
 	opaque     bool
 	reads      map[string]bool
 	writes     map[string]bool
+}
+
+type c07LockOp struct {
+	read bool // RLock / RUnlock
+	lock int
 }
 
 func c07Summarise(thread int, evs []sched.Event, nm *c07Names) c07Summary {
@@ -197,7 +212,7 @@ func c07Summarise(thread int, evs []sched.Event, nm *c07Names) c07Summary {
 		case "end":
 			s.end = true
 		case "lock", "unlock", "rlock", "runlock":
-			s.lockKind, s.lock = e.K, e.A
+			s.locks = append(s.locks, c07LockOp{read: e.K[0] == 'r', lock: e.A})
 		case "get":
 			s.reads[fmt.Sprintf("f%d", e.A)] = true
 		case "put":
@@ -226,12 +241,11 @@ func c07Dependent(a, b c07Summary) bool {
 		return true
 	}
 
-	if a.lockKind != "" && b.lockKind != "" && a.lock == b.lock {
-		ra := a.lockKind == "rlock" || a.lockKind == "runlock"
-		rb := b.lockKind == "rlock" || b.lockKind == "runlock"
-
-		if !ra || !rb {
-			return true
+	for _, la := range a.locks {
+		for _, lb := range b.locks {
+			if la.lock == lb.lock && !(la.read && lb.read) {
+				return true
+			}
 		}
 	}
 
@@ -286,7 +300,7 @@ type c07ExploreStats struct {
 // (Godefroid) one execution per class of executions that differ only in the order of independent transitions
 // (see c07Dependent) is completed, the others are cut as soon as every enabled thread is asleep.
 // visit returns false to stop.
-func c07ExploreAll(p c07Plan, nm *c07Names, wp, sleepSets bool, limit int, visit func(*c07SchedResult) bool) c07ExploreStats {
+func c07ExploreAll(p c07Plan, nm *c07Names, mode c07Mode, sleepSets bool, limit int, visit func(*c07SchedResult) bool) c07ExploreStats {
 	var (
 		stack []c07Frame
 		st    c07ExploreStats
@@ -295,7 +309,7 @@ func c07ExploreAll(p c07Plan, nm *c07Names, wp, sleepSets bool, limit int, visit
 	for {
 		var at []int // len(Trace) at every decision of this run
 
-		res := c07SchedRun(p, nm, wp, func(c *sched.Controller, step int, en []int) int {
+		res := c07SchedRun(p, nm, mode, func(c *sched.Controller, step int, en []int) int {
 			at = append(at, len(c.Trace))
 
 			if step < len(stack) {
@@ -631,13 +645,13 @@ func c07TraceText(tr []sched.Event, nm *c07Names) []string {
 type c07SchedIn struct {
 	Plan     c07Plan `json:"plan"`
 	Schedule []int   `json:"schedule"`
-	WP       bool    `json:"writer_preference,omitempty"`
+	c07Mode
 }
 
 var c07LinCache = map[string][]int{}
 
 // c07SchedObs: check one explored schedule (witness search with the real code as oracle) and render it
-func c07SchedObs(i int, stream string, p c07Plan, res *c07SchedResult, nm *c07Names, wp bool, tags []string) (vf.Obs, bool) {
+func c07SchedObs(i int, stream string, p c07Plan, res *c07SchedResult, nm *c07Names, mode c07Mode, tags []string) (vf.Obs, bool) {
 	hist := res.Hist
 	aborted := res.Deadlock || res.Crash != ""
 
@@ -722,7 +736,7 @@ func c07SchedObs(i int, stream string, p c07Plan, res *c07SchedResult, nm *c07Na
 	tags = slices.Compact(tags)
 
 	return vf.Obs{
-		I: i, Stream: stream, In: c07SchedIn{Plan: p, Schedule: res.Schedule, WP: wp},
+		I: i, Stream: stream, In: c07SchedIn{Plan: p, Schedule: res.Schedule, c07Mode: mode},
 		Out: map[string]any{
 			"history": hist, "witness": order, "sequential_results": seq, "linearizable": lin,
 			"deadlock": res.Deadlock, "crash": res.Crash, "events": c07TraceText(res.Trace, nm),
@@ -771,12 +785,13 @@ func TestVerifC07Sched(t *testing.T) {
 	defer w.Close()
 
 	type planSum struct {
-		Plan      int    `json:"plan"`
-		Kind      string `json:"kind"`
-		Schedules int    `json:"schedules"`
-		Pruned    int    `json:"sleep_set_blocked"`
-		Complete  bool   `json:"complete"`
-		Failing   int    `json:"failing"`
+		Plan      int     `json:"plan"`
+		Kind      string  `json:"kind"`
+		Mode      c07Mode `json:"mode"`
+		Schedules int     `json:"schedules"`
+		Pruned    int     `json:"sleep_set_blocked"`
+		Complete  bool    `json:"complete"`
+		Failing   int     `json:"failing"`
 	}
 
 	var summary []planSum
@@ -803,14 +818,14 @@ func TestVerifC07Sched(t *testing.T) {
 			t.Fatalf("C07-SCHED-SETUP replay file: %v", err)
 		}
 
-		res := c07SchedRun(in.Plan, nm, in.WP, func(_ *sched.Controller, step int, en []int) int {
+		res := c07SchedRun(in.Plan, nm, in.c07Mode, func(_ *sched.Controller, step int, en []int) int {
 			if step < len(in.Schedule) && slices.Contains(en, in.Schedule[step]) {
 				return in.Schedule[step]
 			}
 
 			return en[0]
 		})
-		obs, _ := c07SchedObs(0, "replay", in.Plan, res, nm, in.WP, []string{"replay"})
+		obs, _ := c07SchedObs(0, "replay", in.Plan, res, nm, in.c07Mode, []string{"replay"})
 		w.Put(obs)
 
 		for _, l := range c07TraceText(res.Trace, nm) {
@@ -848,24 +863,35 @@ func TestVerifC07Sched(t *testing.T) {
 			kind = "tiny-generated"
 		}
 
-		for _, wp := range []bool{false, true} {
-			if wp && (len(p.Readers) < 2 || pi >= len(corpus) || !thorough) {
-				continue // writer preference only changes the schedules of plans with two readers (plain enumeration)
-			}
+		modes := []c07Mode{{}}
+		if pi < len(corpus) && (thorough || pi == 2 || pi == 3) {
+			modes = append(modes, c07Mode{Fine: true}) // quick: the two delete plans only
+		}
 
-			bad := 0
+		if pi < len(corpus) && len(p.Readers) >= 2 && thorough {
+			// writer preference only changes the schedules of plans with two readers (plain enumeration: the
+			// independence relation of the reduction does not cover "a pending Lock disables RLock")
+			modes = append(modes, c07Mode{WP: true})
+		}
+
+		for _, mode := range modes {
 			limit := min(perPlan, budget-idx)
-			if pi < len(corpus) && !wp {
+			if pi < len(corpus) && !mode.WP {
 				limit = budget - idx // the corpus plans are always enumerated completely
 			}
 
-			st := c07ExploreAll(p, nm, wp, sleepSets && !wp, limit, func(res *c07SchedResult) bool {
+			bad := 0
+			st := c07ExploreAll(p, nm, mode, sleepSets && !mode.WP, limit, func(res *c07SchedResult) bool {
 				tags := []string{"explore:exhaustive", "plan:" + kind}
-				if wp {
+				if mode.WP {
 					tags = append(tags, "rwmutex-writer-preference")
 				}
 
-				obs, ok := c07SchedObs(idx, kind, p, res, nm, wp, tags)
+				if mode.Fine {
+					tags = append(tags, "fine-grained(accesses-are-scheduling-points)")
+				}
+
+				obs, ok := c07SchedObs(idx, kind, p, res, nm, mode, tags)
 				w.Put(obs)
 				idx++
 
@@ -876,7 +902,7 @@ func TestVerifC07Sched(t *testing.T) {
 
 				return bad < 5 && idx < budget
 			})
-			summary = append(summary, planSum{Plan: pi, Kind: kind, Schedules: st.Visited, Pruned: st.Pruned, Complete: st.Complete, Failing: bad})
+			summary = append(summary, planSum{Plan: pi, Kind: kind, Mode: mode, Schedules: st.Visited, Pruned: st.Pruned, Complete: st.Complete, Failing: bad})
 		}
 	}
 
@@ -904,9 +930,9 @@ func TestVerifC07Sched(t *testing.T) {
 				tag = "explore:pct-d3"
 			}
 
-			res := c07SchedRun(p, nm, false, choose)
+			res := c07SchedRun(p, nm, c07Mode{}, choose)
 			steps = max(steps, len(res.Schedule))
-			obs, ok := c07SchedObs(idx, "sampled", p, res, nm, false, []string{tag, "plan:stress-generator"})
+			obs, ok := c07SchedObs(idx, "sampled", p, res, nm, c07Mode{}, []string{tag, "plan:stress-generator"})
 			w.Put(obs)
 			idx++
 			n++
@@ -982,7 +1008,7 @@ func TestVerifC07SchedSelf(t *testing.T) {
 		runs := [2]int{}
 
 		for mode, sleep := range []bool{false, true} {
-			st := c07ExploreAll(p, nm, false, sleep, 1<<30, func(res *c07SchedResult) bool {
+			st := c07ExploreAll(p, nm, c07Mode{}, sleep, 1<<30, func(res *c07SchedResult) bool {
 				// histories of one outcome differ only in the positions of the stamps: normalise by sorting on Inv
 				sets[mode][c07Outcome(res)] = true
 
